@@ -605,9 +605,9 @@ Section GrammarP.
       destruct (Ipat _ _ _ _ E3 Hn) as (Un2 & xp & Tp & Gp).
       split; [apply Uo; congruence|].
       exists (xo ++ xc ++ xp). split; [rewrite To, Tc, Tp, <- !app_assoc; reflexivity|].
-      apply GEl_idx; [rewrite <- Tp, <- Tc; exact Go| |exact Pc|exact Gp].
-      unfold root_is in Hr. destruct (root_field_name ops) as [[|i]|]; try discriminate.
-      inversion Hr as [Hi]. apply N.eqb_eq in Hi. subst. reflexivity.
+      unfold root_is in Hr. destruct (root_field_name ops) as [[|i isp]|] eqn:Hroot; try discriminate.
+      inversion Hr as [Hi]. apply N.eqb_eq in Hi. subst i.
+      eapply GEl_idx with (isp := isp); [rewrite <- Tp, <- Tc; exact Go|exact Hroot|exact Pc|exact Gp].
     - (* p_slice *)
       intros sc st p st' H Hn. cbn [Parser.p_slice] in H.
       apply bind_inv in H as (g & s1 & E1 & H).
